@@ -265,12 +265,15 @@ struct PGMIndex<K, Epsilon, EpsilonRecursive, Floating>::Segment {
      * @return the approximate position of the specified key
      */
     inline size_t operator()(const K &k) const {
-        size_t pos;
+        double pos;
         if constexpr (std::is_same_v<K, int64_t> || std::is_same_v<K, int32_t>)
-            pos = size_t(slope * double(std::make_unsigned_t<K>(k) - key));
+            pos = slope * double(std::make_unsigned_t<K>(k) - key);
         else
-            pos = size_t(slope * double(k - key));
-        return pos + intercept;
+            pos = slope * double(k - key);
+        constexpr auto too_far = std::numeric_limits<size_t>::max() / 2;
+        if (pos >= double(too_far))
+            return too_far; // beyond any position; avoids an out-of-range conversion (callers cap the result)
+        return size_t(pos) + intercept;
     }
 };
 
